@@ -327,6 +327,30 @@ def generate(ctx):
         for skipna, pat in (((0, 'none'), (1, 'band')) if quick else ((0, 'none'), (1, 'band'), (0, 'single'), (1, 'row'))):
             yield 'regrid2d', {'src': src, 'tgt': tgt, 'skipna': skipna, 'pattern': pat, 'model': bool(model), 'fkind': 'random',
                                'identity': bool(ident), 'forms': k == 0, 'fseed': int(rng.integers(0, 2 ** 31))}
+    # small valid fractions under skipna=True: strong coarsening with (almost) everything NaN, and nearly aligned grids
+    # where the only valid neighbour of a target cell is a sliver overlap
+    tiny = [({'nlon': 128, 'nlat': 64, 'spacing': 'gauss', 'offset': 0.0}, {'nlon': 4, 'nlat': 2, 'spacing': 'equiangular', 'offset': 0.05}, 'inv:single', False),
+            ({'nlon': 128, 'nlat': 64, 'spacing': 'equiangular', 'offset': 0.3}, {'nlon': 3, 'nlat': 2, 'spacing': 'gauss', 'offset': 0.0}, 'isolated', False),
+            ({'nlon': 64, 'nlat': 4, 'spacing': 'gauss', 'offset': 0.0}, {'nlon': 64, 'nlat': 4, 'spacing': 'gauss', 'offset': 1e-3}, 'inv:lonline', False),
+            ({'nlon': 64, 'nlat': 4, 'spacing': 'gauss', 'offset': 4e-5}, {'nlon': 64, 'nlat': 4, 'spacing': 'gauss', 'offset': 0.0}, 'inv:lonline', False),
+            ({'nlon': 64, 'nlat': 3, 'spacing': 'equiangular', 'offset': 0.0}, {'nlon': 64, 'nlat': 3, 'spacing': 'equiangular', 'offset': 3e-7}, 'inv:lonline', False),
+            ({'nlon': 32, 'nlat': 3, 'spacing': 'equiangular', 'offset': 1e-8}, {'nlon': 32, 'nlat': 3, 'spacing': 'equiangular', 'offset': 0.0}, 'inv:lonline', False),
+            ({'nlon': 8, 'nlat': 4, 'spacing': 'gauss', 'offset': 0.0}, {'nlon': 8, 'nlat': 4, 'spacing': 'gauss', 'offset': 4e-5}, 'inv:single', True),
+            ({'nlon': 4, 'nlat': 32, 'spacing': 'gauss', 'offset': 0.0}, {'nlon': 4, 'nlat': 32, 'spacing': 'equiangular', 'offset': 0.0}, 'inv:row', False),
+            ({'nlon': 4, 'nlat': 64, 'spacing': 'equiangular', 'offset': 0.0}, {'nlon': 4, 'nlat': 64, 'spacing': 'gauss', 'offset': 0.0}, 'inv:row', False)]
+    if not quick:
+        tiny += [({'nlon': 256, 'nlat': 128, 'spacing': 'gauss', 'offset': 0.0}, {'nlon': 8, 'nlat': 4, 'spacing': 'gauss', 'offset': 0.0}, 'isolated', False),
+                 ({'nlon': 256, 'nlat': 128, 'spacing': 'gauss', 'offset': 0.0}, {'nlon': 8, 'nlat': 4, 'spacing': 'equiangular', 'offset': 0.3}, 'inv:single', False),
+                 ({'nlon': 192, 'nlat': 96, 'spacing': 'equiangular', 'offset': 0.05}, {'nlon': 5, 'nlat': 3, 'spacing': 'gauss', 'offset': 0.0}, 'isolated', False),
+                 ({'nlon': 128, 'nlat': 2, 'spacing': 'gauss', 'offset': 2e-4}, {'nlon': 128, 'nlat': 2, 'spacing': 'gauss', 'offset': 0.0}, 'inv:lonline', False),
+                 ({'nlon': 16, 'nlat': 48, 'spacing': 'gauss', 'offset': 1e-5}, {'nlon': 16, 'nlat': 48, 'spacing': 'equiangular', 'offset': 0.0}, 'inv:single', False)]
+    for src, tgt, pat, model in tiny:
+        ctx.count('2d:tiny valid fraction ' + pat)
+        for rep in range(2 if quick else 4):
+            for skipna in (1, 0):
+                if skipna == 0 and rep: continue
+                yield 'regrid2d', {'src': src, 'tgt': tgt, 'skipna': skipna, 'pattern': pat, 'model': bool(model), 'fkind': 'random',
+                                   'fseed': int(rng.integers(0, 2 ** 31))}
     # configurations differing in one field, evaluated in both orders in one process
     for r in range(2 if quick else 6):
         nl = [6, 8, 5, 12][r % 4]
@@ -620,7 +644,14 @@ def r_hybrid_batch(ctx, a):
 
 
 def _nan_pattern(pat, shape, seed):
+    if pat.startswith('inv:'):                      # complement: e.g. inv:single = all NaN but one valid cell,
+        return ~_nan_pattern(pat[4:], shape, seed)  # inv:lonline / inv:row = only one meridian / latitude circle valid
     r = np.random.Generator(np.random.PCG64(seed + 17))
+    if pat == 'isolated':                           # all NaN except a few isolated valid points
+        mask = np.ones(shape, dtype=bool)
+        k = max(2, shape[0] * shape[1] // 400)
+        mask[r.integers(0, shape[0], size=k), r.integers(0, shape[1], size=k)] = False
+        return mask
     mask = np.zeros(shape, dtype=bool)
     if pat == 'single': mask[int(r.integers(0, shape[0])), int(r.integers(0, shape[1]))] = True
     elif pat == 'row': mask[:, int(r.integers(0, shape[1]))] = True            # a whole latitude circle
@@ -785,9 +816,22 @@ def _slice_checks(ctx, rg, sspec, tspec, skipna, vals, nanmask, out, use_model):
                    bool(np.all(out[fin] >= vmin - 1e-10) and np.all(out[fin] <= vmax + 1e-10)),
                    {'vmin': float(vmin), 'vmax': float(vmax), 'omin': float(out[fin].min()), 'omax': float(out[fin].max())})
         expect = np.einsum('ab,cd,bd->ac', wlon, wlat, np.where(nanmask, 0.0, vals)) / np.where(frac > 0, frac, 1.0)
-        chk = fin & (frac > 1e-6) & ((posg > 0) if skipna else True)
+        chk = fin & (frac > 1e-3) & ((posg > 0) if skipna else True)
         ctx.oracle_close('2d: finite outputs are the weight-renormalised mean of the non-NaN overlapping cells', out[chk], expect[chk],
                          scale=(float(np.abs(vals).max()) + 1e-300) / max(float(frac[chk].min()) if chk.any() else 1.0, 1e-3))
+    if skipna and not nanmask.all():
+        # small valid fractions: still finite and still the nan-ignoring mean (no absolute / relative cut-off on the fraction)
+        small = (frac > 1e-9) & (frac <= 1e-3) & (posg > 0)
+        for lo_, hi_ in ((1e-9, 1e-7), (1e-7, 1e-5), (1e-5, 1e-3)):
+            ctx.count('2d:skipna cells with valid fraction in (%g, %g]' % (lo_, hi_), int(((frac > lo_) & (frac <= hi_) & (posg > 0)).sum()))
+        ctx.oracle('skipna=True: finite wherever the valid fraction exceeds 1e-9', bool(np.all(np.isfinite(out[(frac > 1e-9) & (posg > 0)]))),
+                   {'nan_at_fraction': [float(v) for v in np.sort(frac[(frac > 1e-9) & (posg > 0) & ~np.isfinite(out)])[:5]]})
+        if small.any():
+            expect = np.einsum('ab,cd,bd->ac', wlon, wlat, np.where(nanmask, 0.0, vals)) / np.where(frac > 0, frac, 1.0)
+            ok = small & np.isfinite(out)
+            err = np.abs(out[ok] - expect[ok]) * frac[ok]            # error of the un-normalised mean
+            ctx.oracle('skipna=True: cells with a small valid fraction are the nan-ignoring weighted mean',
+                       bool(np.all(err <= ctx.tol_rel * (float(np.abs(vals).max()) + 1e-300))), {'max_err': float(err.max()) if err.size else 0.0})
     elif nanmask.all():
         ctx.oracle('2d: an all-NaN field gives an all-NaN output', bool(isn.all()))
     if not nanmask.any():
